@@ -673,6 +673,12 @@ class C14(Check):
         for _ in range(160 if tier == "quick" else 4000):
             out.append({"kind": "arith", "expr": self.gen_expr(rng)})
         rng.shuffle(out)  # load balance of the worker pool only: the enumeration above is exhaustive, its order is irrelevant
+        # the exception class of the calls of the other checks' own streams (adversarial elimination shapes, compositions,
+        # quotients, refinement, simplification, optimisation): only the class of what escapes is judged here
+        for pid, cnt in (("C04", 500), ("C01", 60), ("C02", 40), ("C03", 150), ("C07", 150), ("C12", 150)):
+            chk = _delegate(pid)
+            for c in chk.generate(random.Random(f"C14-{pid}-{rng.random()}"), cnt if tier == "quick" else cnt * 10, tier):
+                out.append({"kind": "op", "prop": pid, "case": c})
         return out
 
     NUMS = [0, 1, 2, 3, 4, 10, 0.5, 0.25, 1.5]
@@ -713,6 +719,12 @@ class C14(Check):
     # ---- implementation ---------------------------------------------------------------------------------
     def run_impl(self, case: dict) -> dict:
         k = case["kind"]
+        if k == "op":
+            try:
+                r = _delegate(case["prop"]).run_impl(case["case"])
+            except Exception as e:  # noqa
+                r = {"err": C.classify_exc(e), "msg": str(e)[:200]}
+            return {"err": r["err"], "msg": r.get("msg", ""), "at": case["prop"] + " stream"} if "err" in r else {"ok": True}
         if k == "dict":
             return run_dict(case)
         if k == "string":
@@ -722,7 +734,7 @@ class C14(Check):
     # ---- model ---------------------------------------------------------------------------------------------
     def model_request(self, case: dict, impl: dict) -> Optional[dict]:
         k = case["kind"]
-        if "harness_trace" in impl:
+        if "harness_trace" in impl or k == "op":
             return None
         if k == "arith":
             def w(e):
@@ -814,6 +826,8 @@ class C14(Check):
     def describe(case: dict) -> str:
         if case["kind"] == "string":
             return f"from_strings(guarantees=[{case['s']!r}])"
+        if case["kind"] == "op":
+            return f"a case of the {case['prop']} stream: {json.dumps(case['case'])[:500]}"
         if case["kind"] == "arith":
             return "constant expression"
         op, p, r = case["fault"]
@@ -823,6 +837,8 @@ class C14(Check):
     # ---- bookkeeping -----------------------------------------------------------------------------------------
     def branch(self, case: dict, impl: dict, model: Optional[dict]) -> List[str]:
         k = case["kind"]
+        if k == "op":
+            return [f"op:{case['prop']}", f"op-outcome:{impl.get('err', 'ok')}"]
         out = [f"outcome:{impl.get('err', 'ok')}"]
         if k == "dict":
             out += [f"site:{case['site']}", f"rep:{case['rep']}"]
@@ -846,6 +862,12 @@ class C14(Check):
 
     def nontrivial(self, case: dict, impl: dict) -> bool:
         return True
+
+
+def _delegate(pid: str):
+    import importlib
+
+    return importlib.import_module("harness.props." + pid.lower()).CHECK
 
 
 KINDS = {"dict": run_dict, "string": run_string, "arith": run_arith}
